@@ -6,7 +6,7 @@ import json, os, re, subprocess, sys, time
 
 SEEDED = '/verif/seeded'
 # property whose check is expected to catch the change (default: the property in the id)
-CHECK_OVERRIDE = {'C04-m1': 'C03'}
+CHECK_OVERRIDE = {'C04-m1': 'C03', 'C04-r2m1': 'C03', 'C08-r2m2': 'C17', 'C02-r2m2': 'C20'}
 MECH = json.load(open('/verif/tools/seeded_mech.json'))
 
 def sh(cmd, **kw):
@@ -43,7 +43,7 @@ def main():
             'id': sid,
             'breaks_property': prop,
             'origin': 'independent sub-agent given only the property text and a scratch worktree of /repo',
-            'mechanism': MECH.get(sid, [meta.get('mechanism', ''), ''])[0],
+            'mechanism': MECH.get(sid, [meta.get('mechanism', '') or title_of(readme), ''])[0],
             'what_it_needs_to_manifest': MECH.get(sid, ['', ''])[1] or meta.get('what_it_needs_to_manifest') or extract_needs(readme),
             'verified_by_me': summ,
             'verification_commands': 'tools/verify_mutant.sh (scratch worktree of /repo HEAD: demo x3 without the change, existing suite with the change, demo x3 with the change)',
@@ -60,6 +60,13 @@ def main():
     print()
     for r in rows:
         print('%-8s %-4s %-22s %5.0fs  %s' % (r[0], r[1], r[2], r[4], r[3]))
+
+def title_of(readme):
+    for line in readme.split('\n'):
+        if line.strip():
+            t = line.lstrip('# ').strip()
+            return re.sub(r'^C\d+\s*/\s*m\d+\s*[—-]+\s*', '', t)
+    return ''
 
 def extract_needs(readme):
     m = re.search(r'(?is)(what it needs[^\n]*\n+)(.*?)(\n#|\n\*\*|\Z)', readme)
